@@ -15,9 +15,10 @@ BOUND = 4.0     # virtual seconds from the kill to the end of the call: scan per
 
 def base_scenarios(rng, n):
     out = []
-    for _ in range(n):
+    kinds = ['apply', 'map', 'imap', 'apply', 'imap_unordered', 'map_unordered']       # stratified: every run sweeps apply pools too
+    for b in range(n):
         pool = {'n_jobs': rng.choice([1, 2, 3]), 'start_method': 'fork'}
-        kind = rng.choice(['map', 'imap', 'imap_unordered', 'map_unordered', 'apply'])
+        kind = kinds[b % len(kinds)]
         if kind == 'apply':
             k = rng.randint(2, 6)
             op = {'op': 'apply_batch', 'tasks': [{'idx': i} for i in range(k)], 'dur': {'kind': 'map', 'map': {}, 'default': 0.02}, 'get_timeout': 30}
@@ -259,7 +260,17 @@ def run(chk):
         if bo.get('stuck') or bo.get('harness_error'):
             continue
         swept += inject.sigkill_sweep(sc, bo, stride=1)
+    for sc in swept:
+        if sc['ops'][0]['op'] == 'apply_batch':
+            sc['want_aproto'] = True
     obs = par.run_all(swept)
+    # apply pools: the queue / result / settle events of the crash runs are steps of Mpire.ApplyProto (with `die` for the victim) —
+    # outside the dequeue / worker_init windows, which are the known findings
+    from harness.checks.C09 import aproto_tie
+    tie = [(sc, o) for sc, o in zip(swept, obs) if 'aproto' in o and not o.get('stuck') and
+           (o.get('injected') or {}).get('victim_phase') in ('job_announced', 'in_user', 'after_user', 'results_sent', 'acked', 'idle') and
+           (o.get('injected') or {}).get('opi', 0) == 0 and len(sc['ops']) == 1]
+    aproto_tie(chk, drv, [a for a, _ in tie], [b for _, b in tie], suite='apply pools under SIGKILL: protocol events vs Mpire.ApplyProto.step (die)')
     classes = {}
     for sc, o in zip(swept, obs):
         cls = judge(chk, sc, o)
